@@ -409,6 +409,12 @@ pub(super) fn derive_schema(input: TokenStream) -> syn::Result<TokenStream> {
                         schema
                     }
 
+                    (None, _, _) if is_unit => {/* Externally tagged: a unit variant is its name */
+                        quote! {
+                            ::ohkami::openapi::string().enumerates([#tag])
+                        }
+                    }
+
                     (None, _, _) => {/* Externally tagged */
                         quote! {
                             ::ohkami::openapi::object()
